@@ -344,6 +344,6 @@ def _h_sync(world: World) -> None:
 
 
 HARNESSES = [
-    Harness("aio-duplex", _h_aio, weight=3, wall_limit=60.0),
-    Harness("sync-sequential", _h_sync, weight=1, wall_limit=60.0),
+    Harness("aio-duplex", _h_aio, weight=3, wall_limit=180.0),
+    Harness("sync-sequential", _h_sync, weight=1, wall_limit=180.0),
 ]
